@@ -17,6 +17,7 @@ import (
 	"errors"
 	"fmt"
 	"io"
+	"math"
 	"net/http"
 	"os"
 	"sort"
@@ -55,8 +56,11 @@ type Script struct {
 	Store string `json:"store,omitempty"`
 	// SkewNS > 0: RequireBearerToken is given this ClockSkew and the token "tok-alice2" is one whose expiry passed
 	// SkewNS/2 ago at every use: still a good credential of user alice under the documented tolerance.
-	SkewNS int64  `json:"skew_ns,omitempty"`
-	Steps  []Step `json:"steps"`
+	SkewNS int64 `json:"skew_ns,omitempty"`
+	// SloppyTool: the "echo" tool reports its progress as done/total of an empty job (0/0, not a number): the
+	// notification cannot be encoded, the tool ignores that error and answers as usual.
+	SloppyTool bool   `json:"sloppy_tool,omitempty"`
+	Steps      []Step `json:"steps"`
 }
 
 type Step struct {
@@ -107,6 +111,7 @@ func gen(rt *rapid.T) Script {
 	s.JSON = rapid.IntRange(0, 3).Draw(rt, "json") == 0
 	if !s.Stateless {
 		s.Store = rapid.SampledFrom([]string{"", "", "memory", "failclose"}).Draw(rt, "store")
+		s.SloppyTool = rapid.IntRange(0, 2).Draw(rt, "sloppy_tool") == 0
 	}
 	if s.Auth != "none" && rapid.IntRange(0, 2).Draw(rt, "skew") == 0 {
 		s.SkewNS = int64(rapid.SampledFrom([]time.Duration{2, time.Second, time.Minute}).Draw(rt, "skew_ns"))
@@ -1368,6 +1373,9 @@ func runInBubble(s Script) (res vt.Result) {
 	server := mcp.NewServer(&mcp.Implementation{Name: "srv", Version: "1"}, opts)
 	w.server = server
 	mcp.AddTool(server, &mcp.Tool{Name: "echo"}, func(ctx context.Context, req *mcp.CallToolRequest, in map[string]any) (*mcp.CallToolResult, any, error) {
+		if s.SloppyTool {
+			_ = req.Session.NotifyProgress(ctx, &mcp.ProgressNotificationParams{ProgressToken: "job", Progress: math.NaN()})
+		}
 		return &mcp.CallToolResult{Content: []mcp.Content{&mcp.TextContent{Text: "echo"}}}, nil, nil
 	})
 	mcp.AddTool(server, &mcp.Tool{Name: "park"}, func(ctx context.Context, req *mcp.CallToolRequest, in map[string]any) (*mcp.CallToolResult, any, error) {
